@@ -1,8 +1,9 @@
 CFG = {
- 'files': ['bmtree/index.go', 'bmtree/pathlen.go', 'bmtree/pathheight.go', 'bmtree/pathbits.go', 'bmtree/pathstr.go', 'bmtree/height.go'],
+ 'files': ['bmtree/index.go', 'bmtree/pathlen.go', 'bmtree/pathheight.go', 'bmtree/pathbits.go', 'bmtree/pathstr.go', 'bmtree/height.go', 'bmtree/allpaths.go'],
  'go': {'bmtree.IndexToPath': 'bmtree.IndexToPath, then bmtree.PathToIndex(2^(h+1)-1, .) on its result',
         'bmtree.IndexToPath/fields': 'bmtree.IndexToPath, then PathLen/PathHeight/PathBits/PathMask/PathStr on its result',
         'bmtree.IndexToPath/order': 'bmtree.IndexToPath on two indices of one height, numeric comparison of the results',
+        'bmtree.AllPaths/full': 'bmtree.AllPaths(2^(h+1)-1, 0, 1<<63) and [bmtree.IndexToPath(h, i)] for every index',
         'bmtree.Height/full': 'bmtree.Height(2^(h+1)-1)',
         'bmtree.PathToIndexLoose/full': 'bmtree.PathToIndexLoose(2^(h+1)-1, NewPath(node)), then bmtree.IndexToPath on its result',
         'bmtree.PathToIndex/inverse': 'bmtree.PathToIndex(2^(h+1)-1, NewPath(node)), then bmtree.IndexToPath on its result'},
@@ -28,5 +29,6 @@ CFG = {
                 'Route lemmas as theorems: table rows = pure descent (h<=3), loop+table = pure descent, shortcut = fixed descent steps, '
                 'descent <-> pre-order index, checker exactness. Widened: order of results = order of indices (injectivity), '
                 'PathLen/PathHeight/PathBits/PathMask/PathStr of the result describe the idx-th node, PathToIndexLoose on a full tree '
-                '= (index, 1), Height(2^(h+1)-1) = h.',
+                '= (index, 1), Height(2^(h+1)-1) = h, IndexToPath h 0..T-1 = the words of the stored nodes of the full mask in pre-order '
+                '(the list AllPaths returns by C04_allpaths).',
 }
